@@ -1,8 +1,9 @@
 #!/bin/sh
 # usage: tools/vraw.sh <unit>  — developer helper: assemble a unit without demotion and show the raw Verus diagnostics
-cd /verif
-python3 - "$1" <<'PY'
-import sys; sys.path.insert(0,'/verif/lib')
+D=$(cd "$(dirname "$0")/.." && pwd)
+cd $D
+python3 - "$1" "$D" <<'PY'
+import sys; sys.path.insert(0, sys.argv[2] + '/lib')
 from vlib import assemble
 text, recs, meta = assemble.assemble(sys.argv[1])
 open('/tmp/vraw_%s.rs' % sys.argv[1],'w').write(text)
